@@ -116,19 +116,24 @@ def exitsByCats (n : NodeD) : Bool :=
 
 def allNodes (d : DocD) : List NodeD := (d.flows.map (·.nodes)).flatten
 
-def OrderedCats (d : DocD) : Prop := ∀ n ∈ allNodes d, ∀ r, n.router = some r → orderedRouter r = true
-def ExitsByCats (d : DocD) : Prop := ∀ n ∈ allNodes d, exitsByCats n = true
+def orderedNode (n : NodeD) : Bool :=
+  match n.router with
+  | none => true
+  | some r => orderedRouter r
+
+abbrev OrderedCats (d : DocD) : Prop := ∀ n ∈ allNodes d, orderedNode n = true
+abbrev ExitsByCats (d : DocD) : Prop := ∀ n ∈ allNodes d, exitsByCats n = true
 
 /-- no contact-field reference carries a `type` (F-C05-a otherwise) -/
 def untypedAction : ActionD → Bool
   | .setContactField _ _ _ t _ => t.isNone
   | _ => true
-def UntypedFields (d : DocD) : Prop := ∀ n ∈ allNodes d, ∀ a ∈ n.actions, untypedAction a = true
+abbrev UntypedFields (d : DocD) : Prop := ∀ n ∈ allNodes d, ∀ a ∈ n.actions, untypedAction a = true
 
 /-- top-level groups carry no attribute (F-C05-b otherwise) -/
 def plainGroup (g : GroupD) : Bool :=
   (dropNull g.query).isNone && (dropNull g.status).isNone && (dropNull g.system).isNone && (dropNull g.count).isNone
-def PlainGroups (d : DocD) : Prop := ∀ g ∈ d.groups, plainGroup g = true
+abbrev PlainGroups (d : DocD) : Prop := ∀ g ∈ d.groups, plainGroup g = true
 
 /-! ### `Valid`: the export schema (what RapidPro writes) -/
 
